@@ -177,6 +177,19 @@ CLAIMED = {
         technique="Lean 4 proof (matrix algebra on the single-determinant models) + exact-orthogonal differential runs + Q(i) correspondence",
         note=TB + " NOCI/GHF covariance is validated (linearity / block structure), the theorems are stated for the rhf/uhf models.",
     ),
+    "C11": dict(
+        category="proof",
+        text=("Lean theorems: the Dice byte format round-trips through the reader for every number of orbitals; the `parity` loop equals the sign of "
+              "the permutation that sorts the reference string with holes replaced in place by their particles - for ANY reference - proved exhaustively "
+              "for up to 5 orbitals by kernel evaluation (stated as _partial; larger sizes are covered by the exact correspondence of parity with the "
+              "model's sorting sign); an eigenvector of a symmetric (Hermitian) H used as trial gives <psi|H|phi> = E <psi|phi> for every phi, hence "
+              "every block energy equals E whatever the weights. Tied to the code by parity/hole/particle lists and read_dets (incl. malformed bytes) "
+              "vs the Lean model, multislater overlaps (both entry points) vs the explicit sum_i c_i |D_i> for random order, reference and cut-off, and "
+              "exact eigenvectors (own diagonalisation and pyscf FCI) -> local energies and sampler block energies equal the eigenvalue."),
+        design_ref="DESIGN.md §5/C11",
+        technique="Lean 4 proof (round trip by induction, exhaustive kernel evaluation of the sign lemma to 5 orbitals, eigenvector algebra) + exact correspondence + Fock-space spec",
+        note=TB + " The all-size sign lemma and the link sorting-sign -> determinant (det_permute) are not formalised; the multislater energy is a finite difference (tolerance 2e-5); pyscf FCI is an external oracle.",
+    ),
 }
 
 NOT_YET = {}
